@@ -304,8 +304,22 @@ class SourceScope(Scope):
         self._all_flows.append(flow)
         return flow
 
-    @context_property
     def assigns(self, ctx):
+        # type: (EvalCtx) -> dict[Object, dict[str, MultiValue]]
+        try:
+            return self._assigns  # type: ignore[has-type]
+        except AttributeError:
+            pass
+
+        cuts = ctx.cuts
+        result = self._collect_assigns(ctx)
+        if ctx.cuts == cuts:
+            # a table collected while some receiver was itself being evaluated
+            # (and therefore skipped by the re-entrancy guard) is incomplete: do not keep it
+            self._assigns = result
+        return result
+
+    def _collect_assigns(self, ctx):
         # type: (EvalCtx) -> dict[Object, dict[str, MultiValue]]
         result = {}  # type: dict[Object, dict[str, MultiValue]]
         for _scope, attr, value in self._attr_assigns:
